@@ -3,7 +3,7 @@ from .. import common
 MANIFEST = {
     "text": "PARTIAL (kernel proved, the statement itself by correspondence/search). Lean 4 theorems over Model/GopStyle.lean, a transcription of "
             "x/format's formatCtx scope tracking, formatSelectorExpr/fmtToBuiltin, fncallStartingLowerCase and funcLitToLambdaExpr (after fix commits "
-            "2c54056, 94c70f5, 52c6248, bcc471d, 1cb36f4, 642f3bf): C25_scope_agrees / C25_file_scope_agrees (the formatter's scope stack computes "
+            "2c54056, 94c70f5, 52c6248, bcc471d, 1cb36f4, 642f3bf, a73422d): C25_scope_agrees / C25_file_scope_agrees (the formatter's scope stack computes "
             "exactly Go's lexical visibility on the program abstraction: blocks, :=, var, type, parameters, if/for/range/switch/clause scopes, labels), "
             "C25_rewrite_sound_partial (every X.Sel rewritten to a builtin has X resolving to the file's fmt import, Sel a print function and the "
             "builtin's name not hidden), C25_builtin_table_sound (that builtin is defined by cl/builtin.go as the same fmt function; regenerated "
@@ -25,7 +25,8 @@ RULE = ("Go main packages of several files: scope-tree units (random trees of bl
         "func literals as call/argument, if/for/range/switch with init, labels, uses X.Sel in statement and expression positions; receivers, "
         "parameters and named results as binders) and 17 template kinds (fmt printing in all forms, fmt functions as values, kept imports, lambdas "
         "expr/block/unnamed/variadic/named-result/nested/defer/go, method calls, package calls, command-style first arguments, hand-written "
-        "shadowing forms, builtin names as locals, control flow, header calls, globals) with random statement subsets; feature programs for "
+        "shadowing forms, builtin names as locals, control flow, header calls, globals, fmt calls in every expression position, call statements over "
+        "selector chains of every root kind x depth 1-3 x method/field x 0/1/n arguments) with random statement subsets; feature programs for "
         "func main (unwrapped, not last, init order, exit code, panic, same-file and cross-file capture, leading var); static scope trees with "
         "real package names; lower-casing of 70 names; non-trivial = distinct case line")
 
